@@ -34,6 +34,7 @@ LEVEL_TEXT = (
     "the bases of the reads that option governs; listed alleles, emitted positions, REF, REFMASKED, ALT order, INFO AD/ADMF and "
     "FORMAT AD of every record agree with the threshold rule applied to those depths. Sampled, not exhaustive."
 )
+LEVEL_TEXT += " Session 4: the allele LISTING is decided also at positions where a sample has no base call, wherever both readings of 'mean sample frequency' (uncovered sample counted as 0, or left out) agree."
 LEVEL_NOTE = (
     "Trusts the generator's record of what it wrote into each BAM (vlib/datasets.py, written through pysam), the CIGAR walker, "
     "fractions.Fraction and the VCF text parser vlib/vcfparse.py. Paired reads, secondary alignments, unmapped-flag records, base "
